@@ -221,8 +221,23 @@ def doFloat (handler : List String) (r : Row) : ConvOut :=
   | .ok => .value
   | .raises mro => if catches handler mro then .default else .raises (mro.headD "?")
 
+open JinjaV.Gen.ConvertTable in
+/-- what `|int` does on a row of the measured table, with the handlers READ from filters.py -/
+def intOut (r : Row) : ConvOut := doInt intOuterCaught intInnerCaught r
+
+open JinjaV.Gen.ConvertTable in
+/-- what `|float` does on a row of the measured table, with the handler READ from filters.py -/
+def floatOut (r : Row) : ConvOut := doFloat floatCaught r
+
 def ConvOut.isRaise : ConvOut → Bool
   | .raises _ => true
   | _ => false
+
+open JinjaV.Gen.ConvertTable in
+/-- counterexample finder for `convert_total`: the (filter, sample, base, class) rows on which an exception escapes -/
+def escapingRows : List (String × String × Int × String) :=
+  rows.flatMap fun r =>
+    (match intOut r with | .raises c => [("int", r.name, r.base, c)] | _ => []) ++
+    (match floatOut r with | .raises c => [("float", r.name, r.base, c)] | _ => [])
 
 end JinjaV.FiltStr
